@@ -203,3 +203,74 @@ def u_matrix_svd(U):
         for lbl, g in rank_post(q, k, cap, tail, e * e, k - Z(dlen)).items():
             U.post(lbl, p, g, axioms=AX, extra=tax + [lem])
         U.canary('canary-rank-is-1', p, q == 1, axioms=AX)
+
+
+# ----------------------------------------------------------------------------------------------
+# svd(): TT-SVD sweep.  L-TTSVD needs every appended core to be the orthonormal left factor of the step, the weights
+# travelling with the remainder (C03 mechanism).  The dense input has symbolic dimension; only its shape is interpreted
+# and the size compatibility of the reshapes is not modelled (lenient tier).
+
+from contracts.transformation import orthL as _orthL
+
+AXS = T.axioms('shape', 'mulI', 'unfold', 'sub')
+
+
+@unit('svd.svd', props=('C03', 'C11'))
+def u_svd(U):
+    fn = U.func('svd', 'svd')
+    st = U.state()
+    d = z3.Int('d')
+    narr = z3.Const('n', z3.ArraySort(z3.IntSort(), z3.IntSort()))
+    nref = st.alloc(VSeq(narr, d, lambda t: t, tag='int'))
+    e, r = z3.Real('e'), z3.Real('r')
+    cap = z3.ToInt(r)
+    capf = z3.If(cap >= 1, cap, 1)
+    t = z3.Int('t!s')
+
+    def inv(ex, s, j):
+        Ys = s.deref(s.vars['Y'])
+        q = Z(s.vars['q'])
+        Zm = s.deref(s.vars['Z'])
+        out = [('length', Ys.n == j), ('bond', q >= 1),
+               ('bond-is-last-rank', z3.If(j == 0, q == 1, q == T.d2(Ys.arr[j - 1]))),
+               ('first-rank-1', z3.Implies(j >= 1, T.d0(Ys.arr[0]) == 1)),
+               ('mode-sizes', z3.ForAll([t], z3.Implies(z3.And(0 <= t, t < j), z3.And(T.d1(Ys.arr[t]) == narr[t], T.d0(Ys.arr[t]) >= 1,
+                                                                                      T.d2(Ys.arr[t]) >= 1)), patterns=[Ys.arr[t]])),
+               ('neighbour-ranks-match', z3.ForAll([t, T.j_], z3.Implies(z3.And(0 <= t, T.j_ == t + 1, T.j_ < j),
+                                                                         T.d2(Ys.arr[t]) == T.d0(Ys.arr[T.j_])),
+                                                   patterns=[z3.MultiPattern(Ys.arr[t], Ys.arr[T.j_])])),
+               ('ranks-within-cap', z3.ForAll([t], z3.Implies(z3.And(0 <= t, t < j), T.d2(Ys.arr[t]) <= capf), patterns=[Ys.arr[t]])),
+               ('appended-cores-are-orthonormal-left-factors', z3.ForAll([t], z3.Implies(z3.And(0 <= t, t < j), _orthL(Ys.arr[t])),
+                                                                         patterns=[Ys.arr[t]]))]
+        if isinstance(Zm, VArr) and Zm.ndim == 2 and Zm.t is not None:
+            out.append(('remainder-has-bond-rows', z3.Implies(j >= 1, Z(Zm.shape[0]) == q)))
+        return out
+
+    def body_end(ex_, s_, o_, j_):
+        calls = s_.ghost.get('fact_calls', [])
+        ok = len(calls) == 1 and calls[0]['give'] == 'r' and not calls[0]['rel']
+        ex_.oblige(s_, 'post', 'each-step-keeps-the-left-factor-orthonormal-and-passes-the-weights-on (hypothesis of L-TTSVD)',
+                   z3.BoolVal(ok), None, assume=False)
+        if len(calls) == 1:
+            ex_.oblige(s_, 'post', 'threshold-and-cap-passed-unchanged', z3.And(M.to_real(calls[0]['e']) == e, M.to_real(calls[0]['r']) == r),
+                       None, assume=False)
+
+    ex = U.executor(fn, loops={0: {'inv': inv, 'body_end': body_end}}, axioms=AXS, type_hints={'Y': 'tt'}, lenient=True)
+    ex.mode = 'ematch'
+    st.vars.update(Y_full=M.VNd(nref), e=e, r=r)
+    pre = [d >= 2, e >= 0, r >= 0, z3.ForAll([t], z3.Implies(z3.And(0 <= t, t < d), narr[t] >= 1), patterns=[narr[t]])]
+    res = U.run(ex, st, pre=pre)
+    U.cover('precondition-satisfiable', U.pre, axioms=AXS)
+    tt = z3.Int('tt')
+    for p, o in res:
+        if o.kind != 'return':
+            U.post('no-exception', p, False, axioms=AXS, mode='ematch')
+            continue
+        Ys = p.deref(o.value)
+        U.post('d-cores', p, Ys.n == d, axioms=AXS, mode='ematch')
+        U.post('well-formed', p, T.wf(Ys.arr, d), axioms=AXS, mode='ematch')
+        U.post('mode-sizes-of-the-array', p, z3.Implies(z3.And(0 <= tt, tt < d), T.d1(Ys.arr[tt]) == narr[tt]), axioms=AXS, mode='ematch')
+        U.post('ranks-within-cap', p, z3.Implies(z3.And(0 <= tt, tt < d - 1), T.d2(Ys.arr[tt]) <= capf), axioms=AXS, mode='ematch')
+        U.post('all-but-the-last-core-orthonormal (hypothesis of L-TTSVD)', p,
+               z3.Implies(z3.And(0 <= tt, tt < d - 1), _orthL(Ys.arr[tt])), axioms=AXS, mode='ematch')
+        U.canary('canary-last-core-orthonormal', p, _orthL(Ys.arr[d - 1]), axioms=AXS)
